@@ -253,6 +253,8 @@ def live_histories(tier, rng, n_quick=40, n_thorough=400):
             else:
                 d = ro_delete(20 + j)
             t = gens.vary_envelope(rng, to_text(d))
+            if rng.random() < 0.1:
+                t = gens.mutate_doc(rng, t, state, n=1)
             msgs.append(t)
             res = impl.run_add(state, t)
             if 'tree' in res and not res.get('err'):
